@@ -13,3 +13,6 @@ open Femio.C10
 #print axioms C10_obj_roundtrip
 #print axioms C10_obj_lex_print
 #print axioms C10_obj_roundtrip_chars
+#print axioms C10_flux_similarity
+#print axioms C10_volume_similarity
+#print axioms C10_enclosed_volume_translate
